@@ -4,6 +4,7 @@ import Receptor.Drive.Wire
 import Receptor.Drive.Pkt
 import Receptor.Drive.Fw
 import Receptor.Drive.Cert
+import Receptor.Drive.Flood
 /-! Line-protocol driver: one JSON request per line `{"e":engine,"op":op,"a":args,"r":impl-observation}`,
 one JSON reply per line `{"m":model-result,"prop":true|false|null,"why":…}` or `{"bad-op":…}`. -/
 open Lean Receptor.Drive
@@ -16,6 +17,7 @@ def dispatch (e op : String) (a r : Json) : Except String Reply :=
   | "pkt" => Receptor.Drive.Pkt.handle op a r
   | "fw" => Receptor.Drive.Fw.handle op a r
   | "cert" => Receptor.Drive.Cert.handle op a r
+  | "flood" => Receptor.Drive.Flood.handle op a r
   | _ => throw s!"bad-op unknown engine {e}"
 
 def handleLine (line : String) : String :=
